@@ -116,7 +116,7 @@ def generate(rng, tier):
     case = {"kind": "jobshop", "jobs": jobs, "rule": rng.choice(["spt", "lpt", "mwkr", "fifo", "random", "SPT"]),
             "local_search": rng.random() < 0.8, "max_iter": rng.choice([0, 1, 2, 5, 20, 100, 200]),
             "seed": rng.choice([None, 0, 1, 99]), "rng": seams.gen_rng_case(rng, 0.25, 100),
-            "interval": rng.choice([0, 1, 1, 3]), "clock": seams.gen_clock_case(rng, 50)}
+            "interval": rng.choice([0, 1, 1, 3]), "clock": seams.gen_clock_case(rng, 50), "seq_as": rng.choice(["list", "tuple"])}
     if case["interval"] and rng.random() < 0.5:
         case["cancel"] = {"kind": "tick", "frac": rng.random(), "mode": rng.choice(["first", "last", "frac"])}
     else:
@@ -518,6 +518,8 @@ def judge_jobshop(case, r, o: Outcome, label):
 
 def exec_jobshop(case, o: Outcome):
     jobs = [[tuple(op) for op in job] for job in case["jobs"]]  # one job list shared by all runs of the case
+    if case.get("seq_as") == "tuple":
+        jobs = tuple(tuple(job) for job in jobs)
     base = run_jobshop(case, {"kind": "never"}, jobs)
     judge_jobshop(case, base, o, "baseline")
     main, policy = base, {"kind": "never"}
